@@ -11,6 +11,8 @@ class ArbSpec(Spec):
   def configs(s,tier): return [dict(nreqs=n) for n in (range(2,9) if tier=='quick' else range(2,17))]
   def bmc_depth(s,cfg): return 2*cfg['nreqs']+2
   def inv(s,V): return onehot(V.S('s.priority_reg.out'))
+  def covers(s,V):
+    return [('a-grant-happens',V.O('s.grants')!=0),('nothing-requested',V.I('s.reqs')==0)]
   def reset_clauses(s,V):
     return [('reset-restores-priority-to-input-0', V.N('s.priority_reg.out')==1)]
   def clauses(s,V):
